@@ -63,6 +63,10 @@ func c13paths() []c13path {
 								if q == 1 {
 									out = append(out, c13path{n, ws, tp, q, r, mp, c, ""}) // an empty will payload is legal (retained: it also clears the topic)
 								}
+								if q == 1 && !r && tp == "w" {
+									// a will larger than what one gossip datagram carries (memberlist's budget is 1400 bytes)
+									out = append(out, c13path{n, ws, tp, q, r, mp, c, strings.Repeat("last-words-", 200)})
+								}
 							}
 						}
 					}
